@@ -1450,7 +1450,45 @@ def E_bond_cutoff(repo, clause):
     strict = isinstance(c.ops[0], ast.Lt) and isinstance(c.left, ast.Name)
     par = fn.parents.get(c)
     anyq = isinstance(par, ast.Call) and call_name(par) == "any"
-    obs.append(Ob("E7", clause, fn, c, strict and anyq, "bonded iff ANY image distance is strictly below the cutoff (strict=%s, any=%s)" % (strict, anyq), slot="strict-any"))
+    # the bond criterion as a table: the path condition of the append, with the image distances standing for a small vector and the cutoff for 1.0, must hold exactly
+    # when the SMALLEST image distance is strictly below the cutoff (representatives: below, exactly at, above; one and several images)
+    sem_b = None
+    apps_b = [c2 for c2 in calls_in(fn) if isinstance(c2.func, ast.Attribute) and c2.func.attr == "append"]
+    if len(apps_b) == 1:
+        from .common import eval_small, Undecidable, Vec
+        import copy as _copy
+
+        class _AbsB(ast.NodeTransformer):
+            def visit_Call(self, n):
+                if call_name(n) == "cdist":
+                    return ast.copy_location(ast.Name(id="DIST", ctx=ast.Load()), n)
+                if call_name(n) == "max_bond_length":
+                    return ast.copy_location(ast.Name(id="CUT", ctx=ast.Load()), n)
+                return self.generic_visit(n)
+        gsb = []
+        for t_, pol_, k_ in norm_guards(fn, apps_b[0]):
+            te = expand(fn, t_)
+            if any(isinstance(y, ast.Call) and call_name(y) in ("cdist", "max_bond_length") for y in ast.walk(te)):
+                gsb.append((_AbsB().visit(_copy.deepcopy(te)), pol_))
+        if gsb:
+            try:
+                bad = []
+                for dist in ((0.5, 2.0), (2.0, 0.5), (1.0, 2.0), (2.0, 3.0), (1.0,), (0.999,), (1.001,)):
+                    taken = all(bool(eval_small(t_, {"DIST": Vec(dist), "CUT": 1.0})) == pol_ for t_, pol_ in gsb)
+                    if taken != (min(dist) < 1.0):
+                        bad.append(dist)
+                sem_b = (not bad, bad[:1])
+            except Undecidable:
+                sem_b = None
+    if sem_b is not None:
+        okb, exb = sem_b
+        obs.append(Ob("E7", clause, fn, c, okb,
+                      "bonded iff the smallest image distance is STRICTLY below the cutoff%s" % ("" if okb else
+                      ": WRONG for image distances %s relative to a cutoff of 1.0 (%s)" % (list(exb[0]), "a pair exactly AT the cutoff distance is bonded" if min(exb[0]) == 1.0 else
+                                                                                     ("a pair within the cutoff is NOT bonded" if min(exb[0]) < 1.0 else "a pair beyond the cutoff is bonded"))),
+                      slot="strict-any", positive="robust" if not okb else False))
+    else:
+        obs.append(Ob("E7", clause, fn, c, strict and anyq, "bonded iff ANY image distance is strictly below the cutoff (strict=%s, any=%s)" % (strict, anyq), slot="strict-any"))
     dist = expand(fn, c.left)
     ok = isinstance(dist, ast.Call) and call_name(dist) == "cdist" and const_value(dist.args[2] if len(dist.args) > 2 else ast.Constant("euclidean")) == "euclidean"
     obs.append(Ob("E7", clause, fn, c, ok, "distance is the Euclidean cdist between the images of atom 1 and atom 2", slot="euclidean"))
